@@ -229,7 +229,7 @@ class LemmaChain:
             return False
         timeout = timeout or self.timeout
         if hyps is None:
-            attempts = [(self.select(node, closed=True), min(timeout, 8.0))]
+            attempts = [(self.select(node, closed=True), min(timeout, 10.0))]
             wide = self.select(node)
             if set(wide) != set(attempts[0][0]):
                 attempts.append((wide, timeout))
@@ -238,10 +238,7 @@ class LemmaChain:
         st = 'unknown'
         for k, (hs, to) in enumerate(attempts):
             forms = self.generalise([node] + self.base + hs)
-            # most lemmas fall to z3 in milliseconds: one process first, the whole portfolio only when needed
-            st, r, text = prove(d, forms[1:], forms[0], timeout=1.5, solvers=('z3',), tr=self.tr, label=what)
-            if st == 'unknown':
-                st, r, text = prove(d, forms[1:], forms[0], timeout=to, tr=self.tr, label=what, parallel=True)
+            st, r, text = prove(d, forms[1:], forms[0], timeout=to, tr=self.tr, label=what, parallel=True)
             if self.verbose:
                 print(f'   [{st:8s} {r.secs if r else 0:6.2f}s {r.solver if r else "":5s} {len(hs):3d} facts] {what}', flush=True)
             if st == 'proved':
@@ -425,6 +422,7 @@ class LemmaChain:
             if not found:
                 unpaired.append(L1)
         # three-way relations (an event in an older epoch, the boundary term, the oracle's q): g1 gb g2 = 4
+        tried = {}
         for L1 in list(unpaired):
             g1 = d.args[L1][1]
             found = False
@@ -434,11 +432,17 @@ class LemmaChain:
                 gb = d.args[Lb][1]
                 for L2 in only_o:
                     g2 = d.args[L2][1]
+                    key = frozenset((L1, Lb, L2))
+                    if key in tried:
+                        found = found or tried[key]
+                        continue
                     if self.close(d.vals[g1] * d.vals[gb] * d.vals[g2], 4.0):
+                        tried[key] = False
                         if self.prove(f'log arguments: #{L1} * #{Lb} * #{L2} = 4', d.eq(d.mul(d.mul(g1, gb), g2), d.const(4))) \
                                 and self.positive(g1) and self.positive(gb) and self.positive(g2):
                             self.fact(d.eq(d.add(d.add(L1, Lb), L2), log4))  # log x + log y + log z = log(xyz)
                             found = True
+                            tried[key] = True
             if found:
                 unpaired.remove(L1)
         # four-way relations (two events of an older epoch when no lineage count multiplies the boundary term):
@@ -796,8 +800,15 @@ def make_body(c, tr, verbose=False):
             zero = [x for kind, x in t.domains if kind == 'pos' and abs(d.vals[x]) < 1e-12 and chain.prove(f'log argument #{x} is zero', d.eq(x, 0))]
             return [Goal(f'{what}: the real code returns {d.vals[I]} (log arguments proved identically zero on this region: '
                          f'{[d.to_str(x, 3) for x in zero][:2]})', d.FALSE, signature=SIG_NAN)]
-        chain = LemmaChain(t, dom(d, V) + list(t.pcs), tr, cfg_label(c), timeout=c.get('lemma_timeout', 20.0), verbose=verbose)
+        chain = LemmaChain(t, dom(d, V) + list(t.pcs), tr, cfg_label(c), timeout=c.get('lemma_timeout', 30.0), verbose=verbose)
         g = chain.equal(I, O, sig, what)
+        open_lemmas = [w for w, st in chain.failed if st == 'unknown']
+        if open_lemmas:  # one retry with a long timeout (machine load)
+            chain = LemmaChain(t, dom(d, V) + list(t.pcs), tr, cfg_label(c), timeout=90.0, verbose=verbose)
+            g = chain.equal(I, O, sig, what)
+            open_lemmas = [w for w, st in chain.failed if st == 'unknown']
+        if open_lemmas:
+            g.label += f' [lemmas the portfolio left open: {open_lemmas[:3]}]'
         goals = [g]
         # well-definedness on the whole region: every denominator non-zero, every log/sqrt argument in its domain
         bad = [f'#{x}' for x in chain.undefined] + ([] if chain.defined else ['a denominator'])
@@ -1020,32 +1031,32 @@ CELLS_N3 = ['0<s0<=s1<c0<s2<c1<B', '0<s0<=s1<c0<s2<B<c1', '0<s0<=s1<c0<B<s2<c1',
             '0<s2<s0<B<s1<c0<c1', '0=s0<s1<B<c0<s2<c1', '0<s0<=s1<c0<s2=B<c1', '0<s0<=s1<B=c0<s2<c1']
 
 
+QUICK_CELLS = ['0<s0<=s1<c0<B', '0<s0<=s1<B=c0', '0<s0<=s1<B<c0', '0<s0<s1=B<c0', '0<s0<B<s1<c0']
+
+
 def tasks_for(tier):
-    ts = [('plumb', v) for v in PLUMB_VARIANTS]
-    ts.append(('beast', None))
     D = density_cfg
-    # ---- one epoch against the constant-rate oracle (Explorer enumerates tip-at-0 / rho = 0 / searchsorted regions)
+    ts = []
+    # ---- refinement: two epochs, identical rates, no sampling at the new boundary (one task per cell of the
+    #      ordering of the boundary among the node heights; the Explorer certifies that a cell is one path region)
+    for cell in (QUICK_CELLS if tier == 'quick' else CELLS_N2):
+        ts.append(('density', D(m=2, times='abs', cell=cell, split={'rho0': False})))
+    ts.append(('density', D(m=2, times='abs', rho_shape='short', survival=False, cell='0<s0<B<s1<c0', split={'rho0': False})))
+    ts.append(('density', D(m=2, times='abs', cell='0<s0<=s1<B<c0', removal=True, split={'rho0': False})))
+    # ---- one epoch against the constant-rate oracle (the Explorer enumerates tip-at-0 / rho = 0 / searchsorted regions)
     for surv in (False, True):
         for rem in (False, True):
             ts.append(('density', D(survival=surv, removal=rem)))
-    ts.append(('density', D(removal=True, split={'corner': True})))
     ts.append(('density', D(origin='root_edge')))
     ts.append(('density', D(origin='none', removal=True)))
-    ts.append(('density', D(times='abs', survival=False)))
     ts.append(('density', D(times='rel')))
-    ts.append(('density', D(rho_shape='short')))
-    for r0 in (False, True):
-        ts.append(('density', D(n=3, split={'rho0': r0})))
+    ts.append(('density', D(removal=True, split={'corner': True})))
     # ---- the constant-model class
     ts.append(('density', D(cls='BD')))
     ts.append(('density', D(cls='BD', survival=False)))
-    # ---- refinement: two epochs, identical rates, no sampling at the new boundary
-    for cell in CELLS_N2:
-        ts.append(('density', D(m=2, times='abs', cell=cell, split={'rho0': False})))
-    ts.append(('density', D(m=2, times='abs', cell='0<s0<=s1<B<c0', removal=True, split={'rho0': False})))
-    ts.append(('density', D(m=2, times='abs', rho_shape='short', survival=False, cell='0<s0<B<s1<c0', split={'rho0': False})))
-    ts.append(('cover', dict(n=2, cells=CELLS_N2, tips='positive', half=True)))
     if tier != 'quick':
+        ts.append(('density', D(times='abs', survival=False)))
+        ts.append(('density', D(rho_shape='short')))
         for surv in (False, True):
             for rem in (False, True):
                 for org in ('given', 'root_edge', 'none'):
@@ -1063,6 +1074,10 @@ def tasks_for(tier):
         ts.append(('cover', dict(n=2, cells=CELLS_N2 + CELLS_N2_TIP0, tips='any')))
         for cell in CELLS_N3:
             ts.append(('density', D(m=2, n=3, times='abs', cell=cell, split={'rho0': False})))
+    else:
+        ts.append(('cover', dict(n=2, cells=QUICK_CELLS, tips='positive', half=True, strict=True)))
+    ts += [('plumb', v) for v in PLUMB_VARIANTS]
+    ts.append(('beast', None))
     return ts
 
 
@@ -1077,6 +1092,8 @@ def run_cover_task(spec, tr):
             dom += [d.lt(0, V[f's{i}']) for i in range(spec['n'])] + [d.lt(0, V['rho'])]
         if spec.get('half'):
             dom.append(d.le(V['s0'], V['s1']))
+        if spec.get('strict'):  # quick tier: the boundary lies above the lower tip (thorough covers the rest)
+            dom.append(d.lt(V['s0'], boundary_height(d, V, c)))
         cells = [d.and_(*cell_constraints(dict(c, cell=cell), d, V)) for cell in spec['cells']]
         st, r, _ = prove(d, dom, d.or_(*cells), timeout=60.0, tr=tr, label='cells cover the domain', parallel=True)
         if st == 'proved':
@@ -1137,7 +1154,7 @@ def body(chk):
         'removal probability with r=0 and rho=1 is examined in a separate task (corner): the general tasks assume r>0 or rho<1',
     }
     chk.total.stubs |= {'exp', 'log', 'sqrt (uninterpreted, generalised to real variables inside every lemma)'}
-    pmap(run_task, tasks_for(chk.tier), chk.total)
+    pmap(run_task, tasks_for(chk.tier), chk.total, workers=12)
 
 
 def replay_file(path):
